@@ -85,3 +85,9 @@ void Proxy::CheckQuiescent(const char* what) const {
 }
 
 }  // namespace sim
+
+namespace sim::detail {
+void ThrowBomb(std::uint32_t id) {
+  throw TaggedEx{id};
+}
+}  // namespace sim::detail
